@@ -16,6 +16,9 @@ pub enum Kind {
     Plain,
     /// a word the code masks to 160 bits
     Addr,
+    /// a plain word whose stored value is a masked input scaled by a constant that is not a power of two
+    /// (decimals, seconds per day): `slot = (v & mask(width)) * factor`, read back as `slot / factor`
+    Scaled { width: usize, factor: W },
     /// keys: true = masked to 160 bits; value_addr: the stored/loaded value is masked to 160 bits
     /// const_key: the outermost-declared (first hashed) key is this pushed constant instead of call data
     Mapping {
@@ -34,6 +37,10 @@ pub enum Kind {
         use_shifts: bool,
         #[serde(default)]
         whole: u8,
+        /// how a shift amount is written on the read side: 0 = a literal, 1 = byte offset * 8,
+        /// 2 = byte offset << 3 (constant expressions, as unoptimised compiler output has them)
+        #[serde(default)]
+        shift_expr: u8,
     },
 }
 
@@ -124,7 +131,23 @@ pub fn gen_truth(ch: &mut Chooser, max_vars: usize) -> Truth {
     let mut used = vec![];
     let mut vars = vec![];
     for _ in 0..n {
-        let kind = match ch.below(10) {
+        let kind = match ch.below(11) {
+            10 => Kind::Scaled {
+                width:  *ch.pick(&[8usize, 32, 64, 128, 160]),
+                factor: *ch.pick(&[
+                    W::from_u64(10),
+                    W::from_u64(1_000),
+                    W::from_u64(10_000),
+                    W::from_u64(86_400),
+                    W::from_u64(6),
+                    W::from_u64(12),
+                    W::from_u64(100),
+                    W::from_u64(3_600),
+                    W::from_u64(1_000_000_000_000_000_000),
+                    W::from_u64(3),
+                    W::from_u64(255),
+                ]),
+            },
             0 | 1 => Kind::Plain,
             2 | 3 => Kind::Addr,
             4 | 5 | 6 => {
@@ -166,10 +189,12 @@ pub fn gen_truth(ch: &mut Chooser, max_vars: usize) -> Truth {
                 let fields = gen_fields(ch);
                 let use_shifts = ch.chance(1, 2);
                 let whole = if ch.chance(1, 4) { 1 + ch.below(2) as u8 } else { 0 };
+                let shift_expr = if ch.chance(1, 3) { 1 + ch.below(2) as u8 } else { 0 };
                 Kind::Packed {
                     fields,
                     use_shifts,
                     whole,
+                    shift_expr,
                 }
             }
         };
@@ -273,6 +298,15 @@ fn emit_read(b: &mut B, v: &Var, field: usize) {
             b.emit(asm::SLOAD);
             ret_top(b);
         }
+        Kind::Scaled { width, factor } => {
+            b.push(*factor);
+            b.push(v.slot);
+            b.emit(asm::SLOAD);
+            b.emit(asm::DIV);
+            b.push(mask(*width));
+            b.emit(asm::AND);
+            ret_top(b);
+        }
         Kind::Addr => {
             b.push(v.slot);
             b.emit(asm::SLOAD);
@@ -294,13 +328,25 @@ fn emit_read(b: &mut B, v: &Var, field: usize) {
             b.emit(asm::SLOAD);
             ret_top(b);
         }
-        Kind::Packed { fields, use_shifts, .. } => {
+        Kind::Packed { fields, use_shifts, shift_expr, .. } => {
             let (o, w) = fields[field % fields.len()];
             b.push(v.slot);
             b.emit(asm::SLOAD);
             if o > 0 {
                 if *use_shifts {
-                    b.push(W::from_u64(o as u64));
+                    match shift_expr {
+                        1 => {
+                            b.push(W::from_u64(8));
+                            b.push(W::from_u64(o as u64 / 8));
+                            b.emit(asm::MUL);
+                        }
+                        2 => {
+                            b.push(W::from_u64(o as u64 / 8));
+                            b.push(W::from_u64(3));
+                            b.emit(asm::SHL);
+                        }
+                        _ => b.push(W::from_u64(o as u64)),
+                    }
                     b.emit(asm::SHR);
                 } else {
                     b.push(W::pow2(o as u32));
@@ -317,6 +363,16 @@ fn emit_read(b: &mut B, v: &Var, field: usize) {
 
 fn emit_write(b: &mut B, v: &Var, field: usize) {
     match &v.kind {
+        Kind::Scaled { width, factor } => {
+            value(b, v, 0, false);
+            b.push(mask(*width));
+            b.emit(asm::AND);
+            b.push(*factor);
+            b.emit(asm::MUL);
+            b.push(v.slot);
+            b.emit(asm::SSTORE);
+            b.emit(asm::STOP);
+        }
         Kind::Plain => {
             value(b, v, 0, false);
             b.push(v.slot);
